@@ -139,7 +139,9 @@ func forType(t reflect.Type, seen map[reflect.Type]bool, ignore bool, schemas ma
 			if cloned.Type != "" {
 				cloned.Types = []string{"null", cloned.Type}
 				cloned.Type = ""
-			} else if !slices.Contains(cloned.Types, "null") {
+			} else if len(cloned.Types) > 0 && !slices.Contains(cloned.Types, "null") {
+				// (A schema without a type restriction already allows null;
+				// adding "null" alone would allow nothing else.)
 				cloned.Types = append([]string{"null"}, cloned.Types...)
 			}
 		}
